@@ -1403,7 +1403,7 @@ def rule_O6(ctx, rule: str = "O6") -> None:
             if isinstance(it, ast.Name) and it.id in gens:
                 return True
         for c in ast.walk(lp):
-            if isinstance(c, ast.Call) and isinstance(c.func, ast.Name) and c.func.id == "next" and c.args and isinstance(c.args[0], ast.Name) and c.args[0].id in gens:
+            if isinstance(c, ast.Call) and isinstance(c.func, ast.Name) and c.func.id == "next" and c.args and ((isinstance(c.args[0], ast.Name) and c.args[0].id in gens) or (isinstance(c.args[0], ast.Call) and isinstance(c.args[0].func, ast.Name) and c.args[0].func.id in readers)):
                 return True
         return False
 
